@@ -102,6 +102,20 @@ Example C33_relex_chain_nonvacuous :
   emit true ts = s2l "let a=x1+ ++n;return a>>=42,typeof e?n:(0xff!==10n)+1.5".
 Proof. vm_compute. repeat split; reflexivity. Qed.
 
+(* composition with the renaming: when the renamed token list (whose every token is described by
+   C33_only_locals_renamed) is well formed, the minified text lexes to exactly that renamed list *)
+Theorem C33_minified_relex :
+  forall order src rs, rename_locals true order (strip_comments (tokenize src)) = Some rs -> wf [] rs = true ->
+    exists out, minify1 true order src = Some out /\ strip_ws (tokenize out) = strip_ws rs.
+Proof. exact minified_relex. Qed.
+
+Example C33_minified_relex_nonvacuous :
+  let src := s2l "function f(p, k){ let q = p + 1, total = q * k; /* c */ return {total, k: q / 2}; } // end" in
+  let st := strip_comments (tokenize src) in
+  exists rs, rename_locals true (renamable true st) st = Some rs /\ wf [] rs = true /\
+             minify1 true (renamable true st) src = Some (s2l "function f(a,b){let c=a+1,d=c*b;return{total:d,k:c/2};}").
+Proof. eexists. vm_compute. repeat split; reflexivity. Qed.
+
 Example C33_relex_lists_nonvacuous :
   let ts := tokenize (s2l "function f(a1,b){let x = a1 + +b - 1.5e3/2 ; return x>>>=2, x!==b ? x-- : b++ +a1 .5}") in
   wf [] ts = true /\ List.length (strip_ws ts) = 39%nat /\
